@@ -723,10 +723,10 @@ class LinenoVariant(variants.Variant):
         L.append('%option yylineno')
         L.append('%{'); L.append('extern void c09_mark(int);    /* names the action arm in the IR; never defined, nothing is linked or run */'); L.append('%}')
         L.append('%%')
-        s.rule = {}
+        s.rule = {}; s.rule_text = {}
         def rule(tag, text):
             k = len(s.rule) + 1
-            L.append(text.replace('{ ', '{ c09_mark(%d); ' % (100 + k), 1)); s.rule[tag] = (k, 100 + k)
+            L.append(text.replace('{ ', '{ c09_mark(%d); ' % (100 + k), 1)); s.rule[tag] = (k, 100 + k); s.rule_text[tag] = text.split('{')[0].strip()
         if bol: rule('bol', '^foo          { return 1; }')
         rule('fwd', '"ab\\ncd"/e+   { return 2; }')          # fixed head with newline, variable trail: M4_HOOK_LINE_FORWARD(5)
         rule('rew', 'x+/"\\ny"      { return 3; }')          # variable head, fixed trail with newline: M4_HOOK_LINE_REWIND(2)
@@ -959,10 +959,17 @@ def r3_variant(ctx, v, mod, prog, own):
             if len(late) == len(rs):
                 fail(con + ':order', fnname, where(late[0]), '%s rewinds the line counter only after %s has been changed, so it scans the wrong bytes' % (what, '/'.join(sorted(names)))); return
             rep.ok('C09.R3', '%s %s: %s rewinds lines@%s before %s changes' % (tag, fnname, what, rs[0].line, '/'.join(sorted(names))))
+        flags = eol_flags(mod)
         for rt, con, names, what in (('less', 'yyless-in-action', YYLENG_NAMES, 'the yyless() expansion in an action'),
                                      ('fwd', 'trail-LINE_FORWARD', CBUFP_NAMES, 'the fixed-head trailing context prologue'),
                                      ('rew', 'trail-LINE_REWIND', CBUFP_NAMES, 'the fixed-trail trailing context prologue')):
             k, mark = v.rule[rt]
+            if rt != 'less' and flags is not None and k < len(flags) and not flags[k]:
+                # the hooks are emitted only for flagged rules: the generator did not flag a probe rule whose pattern contains "\n"
+                rep.fail('C09.R3', 'C09.R3:probe:%s-rule:not-flagged-by-generator' % rt, os.path.basename(v.src),
+                         'yy_rule_can_match_eol[%d] is 0 for the probe rule %s, whose pattern contains a literal newline (generator side, see C09.R1/R2); '
+                         'the trailing-context line hooks are not instantiated and cannot be inspected [variant %s]' % (k, v.rule_text[rt], v.name), variant=v.describe())
+                continue
             cb = case_blk.get(k)
             if cb is None: rep.broken('%s: no case %d in the action switch' % (v.name, k))
             region = action_region(dcfg, cb)
@@ -997,6 +1004,15 @@ def r3_without(ctx, v, mod, prog, control=False):
         rep.ok('C09.R3', '%s: without M4_MODE_YYLINENO the counter is written only by %s (%d stores)' % (v.name, '/'.join(sorted({base(f.name) for f in sc.direct})) or 'nobody', n))
     return found
 
+def eol_flags(mod):
+    """the instantiated yy_rule_can_match_eol[] (in-code table), or None"""
+    for n, g in mod.globals.items():
+        if norm(n) in EOLTBL_NAMES and g.init is not None:
+            if g.init[0] == 'agg': return [int(x) for x in re.findall(r'\bi\d+ (-?\d+)', g.init[1])]
+            if g.init[0] == 'cstr': return list(ir.decode_cstr(g.init[1]).encode('latin-1')) + [0]
+            if g.init == ('other', 'zeroinitializer') and g.ty is not None and g.ty.k == 'arr': return [0] * g.ty.a
+    return None
+
 def mentions_global(mod, names):
     return any(norm(g) in names for g in mod.globals)
 
@@ -1029,7 +1045,6 @@ def r3(ctx):
         if wants and not mode:
             rep.fail('C09.R3', 'C09.R3:%s:M4_MODE_YYLINENO:not-set' % skel(v), os.path.basename(v.src), '%%option yylineno does not turn M4_MODE_YYLINENO on [variant %s]' % v.name, variant=v.describe()); continue
         if mode:
-            if not mentions_global(mod, EOLTBL_NAMES): rep.broken('%s: M4_MODE_YYLINENO without yy_rule_can_match_eol' % v.name)
             r3_variant(ctx, v, mod, prog, v if is_own else None)
             n_with += 1; backs_with.add(v.backend)
         else:
